@@ -580,12 +580,12 @@ class Rope:
         n = self.length_term()
         nv = _cval(n)
         if nv is None:
-            for k in range(0, 17):
+            for k in range(0, 70):
                 if c.branch(n == k):
                     nv = k
                     break
             else:
-                raise Undecided("from_bytes of more than 16 bytes of symbolic length")
+                raise Undecided("from_bytes of more than 69 bytes of symbolic length")
             return Rope(_renorm_len(self, nv), self.text).to_int()
         t = I0
         for s in self.segs:
@@ -599,7 +599,7 @@ class Rope:
             elif isinstance(s, Z) and s.val == 0:
                 v = I0
             else:
-                if L > 32:
+                if L > 70:
                     raise Undecided("from_bytes of a long opaque field")
                 v = I0
                 for j in range(L):
